@@ -1,6 +1,6 @@
 (* C07 (ladder half) - user rules decide over the built-in knowledge.  Property theorems only;
    the matcher half (last match wins, inert rules, literal/anchor matching) is Props/C07.v. *)
-From DippyV Require Import Base.Str Base.Verdict Base.Tree Gen.Tables Model.Walker Model.Ladder Proofs.LadderP.
+From DippyV Require Import Base.Str Base.Verdict Base.Tree Gen.Tables Model.Walker Model.Ladder Proofs.LadderP Proofs.AssignP.
 
 Section Oracles.
   Variable mcmd : ctx -> list str -> option verdict.
@@ -36,3 +36,19 @@ Theorem C07_none : forall mcmd handler mredir astr c, (forall ts, mcmd c ts = No
   forall words, ladder mcmd handler mredir astr c words = ladder (fun _ _ => None) handler mredir astr c words.
 Proof. exact no_rule_builtin. Qed.
 Print Assumptions C07_none.
+
+(* which words are skipped as an assignment prefix before the rules are consulted: exactly bash's assignment
+   words NAME=v, NAME+=v, NAME[sub]=v, NAME[sub]+=v (NAME an ASCII identifier, sub without "]") - so a command
+   whose name merely contains "=" (./a=b.sh) is offered to the rules under its own name *)
+Theorem C07_assignment_words : forall w, is_assignment w = true <-> assignment_word w.
+Proof. exact is_assignment_spec. Qed.
+Print Assumptions C07_assignment_words.
+
+Theorem C07_command_name_kept : forall c r, ident_start c = false -> is_assignment (c :: r) = false.
+Proof. exact not_assignment_head. Qed.
+Print Assumptions C07_command_name_kept.
+
+Example C07_assignment_example :
+  map is_assignment [$"X=1"; $"PATH+=:/opt/bin"; $"a[0]=v"; $"a[k]+=v"; $"./a=b.sh"; $"--opt=v"; $"1a=b"; $"a[=b"; $"ab"]
+  = [true; true; true; true; false; false; false; false; false].
+Proof. vm_compute. reflexivity. Qed.
